@@ -32,9 +32,17 @@ OLD = {
               "theorems (Props/C09.lean) prove for every byte string, every prefix length and every chunk length "
               ">= 1 that the chunked CRC-32 / CRC-32C equals the CRC of the prefix (chunk-length independence), "
               "the modular checksum equals the sum of zero-padded big-endian words mod 2^32, null is four zero "
-              "bytes, verification is equality; standard check values by kernel evaluation. Tied to the Python "
+              "bytes, verification is equality; standard check values by kernel evaluation. EOF clause on the "
+              "source handler model: every EOF PDU it queues — the first one, an EOF (cancel), and each one "
+              "re-sent by the positive ACK procedure — carries this function's value for the prefix of the source "
+              "file whose length is the PDU's own size field, i.e. the bytes sent (C09_source_eof_pdu, "
+              "C09_source_eof_resent, C09_source_eof_cancel, C09_source_eof_metadata_only; the undisturbed "
+              "stream's EOF is pinned down by the C07 whole-stream theorems). Tied to the Python "
               "by differential execution (all prefixes/chunk lengths of short strings, boundary and random "
-              "cases of long ones, all four types + malformed) and an independent zlib/bitwise reference oracle."),
+              "cases of long ones, all four types + malformed) and an independent zlib/bitwise reference oracle; "
+              "the EOF clause by sender sessions (cancel requests, ACK timer expiries, several transactions on one "
+              "handler with the source file rewritten in between) run on implementation and source model, with "
+              "the oracle o_C09_eof evaluated on every EOF PDU retrieved."),
         design_ref="§6 C09",
         technique="Lean 4 theorems (loop invariants over List UInt8) + differential correspondence",
     ),
